@@ -3,6 +3,10 @@ C20 — Variables keep their identity: unique indices, faithful pickling.
 Property theorems about `Model/Vars.lean`.
 -/
 import SageoptModel.Model.Vars
+import SageoptModel.Lemmas.VarsSym
+import SageoptModel.Lemmas.VarsAlloc
+import SageoptModel.Lemmas.VarsHist
+import SageoptModel.Lemmas.VarsRelink
 
 namespace Sageopt.Props.C20
 open Sageopt.Vars
@@ -10,5 +14,137 @@ open Sageopt.Vars
 /-- index clearing starts a new generation -/
 theorem clear_new_generation (a : Alloc) : (clear a).gen = a.gen + 1 ∧ (clear a).counter = 0 := by
   simp [clear]
+
+/-- symmetric layout: mirrored entries share an index, nothing else does, and exactly n(n+1)/2 indices are used -/
+theorem symId_symm (n i j : Nat) : symId n i j = symId n j i := symId_symm' n i j
+
+theorem symId_lt (n i j : Nat) (hi : i < n) (hj : j < n) : symId n i j < n * (n + 1) / 2 :=
+  symId_lt' n i j hi hj
+
+theorem symId_inj (n i j i' j' : Nat) (hi : i < n) (hj : j < n) (hi' : i' < n) (hj' : j' < n)
+    (h : symId n i j = symId n i' j') : (i = i' ∧ j = j') ∨ (i = j' ∧ j = i') :=
+  symId_inj' n i j i' j' hi hj hi' hj' h
+
+/-- a created Variable gets exactly the indices [counter, counter'), is proper, and carries the current generation -/
+theorem create_spec (a a' : Alloc) (shape : List Nat) (name : Option String) (sym : Bool) (v : VarObj)
+    (h : create a shape name sym = some (a', v)) :
+    v.proper = true ∧ v.gen = a.gen ∧ a'.gen = a.gen ∧ a.counter ≤ a'.counter ∧ v.shape = shape ∧
+    v.ids.length = size shape ∧
+    (∀ id ∈ v.ids, a.counter ≤ id ∧ id < a'.counter) ∧
+    (sym = false → v.ids.Nodup) :=
+  create_spec' a a' shape name sym v h
+
+/-- UNIQUE INDICES, for every history of a session: two different proper Variables of the same generation
+    never share a scalar index -/
+theorem ids_unique (a : Alloc) (ops : List HOp) (i j : Nat) (v w : VarObj)
+    (hv : (runH a ops).2[i]? = some v) (hw : (runH a ops).2[j]? = some w) (hij : i ≠ j) (hg : v.gen = w.gen) :
+    ∀ id ∈ v.ids, id ∉ w.ids :=
+  ids_unique' ops a i j v w hv hw hij hg
+
+/-- generations of a session stay within the session's window above its initial value -/
+theorem gen_window (a : Alloc) (ops : List HOp) :
+    ∀ v ∈ (runH a ops).2, a.gen ≤ v.gen ∧ v.gen ≤ a.gen + ops.length := by
+  intro v hv
+  obtain ⟨h1, h2, _⟩ := runH_inv ops a v hv
+  exact ⟨h1, h2⟩
+
+/-- ACROSS SESSIONS: if two sessions start at different multiples of 2^16 (the random per-session offsets) and
+    each clears its indices fewer than 2^16 times, no Variable of one shares a generation with a Variable of the
+    other — so a loaded Variable can never collide with one created in the loading session -/
+theorem sessions_disjoint (sA sB : Nat) (hne : sA ≠ sB) (opsA opsB : List HOp)
+    (hA : opsA.length < 2 ^ 16) (hB : opsB.length < 2 ^ 16)
+    (v w : VarObj) (hv : v ∈ (runH { gen := sA * 2 ^ 16 } opsA).2) (hw : w ∈ (runH { gen := sB * 2 ^ 16 } opsB).2) :
+    v.gen ≠ w.gen := by
+  have h1 := gen_window { gen := sA * 2 ^ 16 } opsA v hv
+  have h2 := gen_window { gen := sB * 2 ^ 16 } opsB w hw
+  simp only at h1 h2
+  omega
+
+/-- slices share the components of their parent (same indices at the selected positions, same generation, same
+    name) and are improper -/
+theorem slice_shares_components (v : VarObj) (pos : List Nat) (shape : List Nat) (hp : ∀ p ∈ pos, p < v.ids.length) :
+    (slice v pos shape).proper = false ∧ (slice v pos shape).gen = v.gen ∧ (slice v pos shape).name = v.name ∧
+    (∀ id ∈ (slice v pos shape).ids, id ∈ v.ids) ∧
+    (slice v pos shape).ids.length = pos.length := by
+  refine ⟨rfl, rfl, rfl, ?_, ?_⟩
+  · intro id hid
+    simp only [slice, List.mem_map] at hid
+    obtain ⟨p, hpm, rfl⟩ := hid
+    have hlt := hp p hpm
+    rw [List.getD_eq_getElem?_getD, List.getElem?_eq_getElem hlt]
+    exact List.getElem_mem hlt
+  · simp [slice]
+
+/-- PICKLE ROUND TRIP, parent links: for EVERY order in which `__setstate__` runs over the array objects of an
+    unpickled graph, every scalar variable that belongs to a proper Variable of the graph ends up with that
+    Variable as its parent (never with a slice), provided indices are unique among the graph's proper Variables -/
+theorem relink_proper_wins (objs : List VarObj) (order : List Nat) (hperm : order.Perm (List.range objs.length))
+    (p : Nat) (o : VarObj) (hp : objs[p]? = some o) (hprop : o.proper = true) (id : Nat) (hid : id ∈ o.ids)
+    (huniq : ∀ q o', objs[q]? = some o' → o'.proper = true → id ∈ o'.ids → q = p) :
+    parentOf (relink objs order) id = some p := by
+  have hlt : p < objs.length := by
+    rcases Nat.lt_or_ge p objs.length with h | h
+    · exact h
+    · rw [List.getElem?_eq_none h] at hp; exact absurd hp (by simp)
+  have hmem : p ∈ order := hperm.mem_iff.mpr (List.mem_range.mpr hlt)
+  rw [relink_eq_foldl]
+  exact foldl_relinkStep_establish objs p o hp hprop id hid huniq order hmem []
+
+/-- loading never changes the allocator of the loading session -/
+theorem load_keeps_alloc (a : Alloc) (graph : List VarObj) : graph.foldl loadAdvance a = a := by
+  induction graph with
+  | nil => rfl
+  | cons g gs ih => exact ih
+
+/-! ### non-vacuity: concrete instances evaluated by the kernel -/
+
+/-- the concrete session history used below -/
+def demoHist : List HOp :=
+  [.create [2] (some "x") false, .create [2, 2] none true, .clear, .create [3] none false]
+
+example : (runH {} demoHist).2.map (·.ids) = [[0, 1], [2, 3, 3, 4], [0, 1, 2]] := by decide
+example : (runH {} demoHist).2.map (·.gen) = [0, 0, 1] := by decide
+example : (runH {} demoHist).2.map (·.proper) = [true, true, true] := by decide
+example : (runH {} demoHist).2.map (·.shape) = [[2], [2, 2], [3]] := by decide
+example : (runH {} demoHist).1.counter = 3 ∧ (runH {} demoHist).1.gen = 1 ∧ (runH {} demoHist).1.unnamed = 2 := by
+  decide
+/-- the hypotheses of `ids_unique` are satisfiable on this history (i = 0, j = 1, same generation) -/
+example : ∃ v w, (runH {} demoHist).2[0]? = some v ∧ (runH {} demoHist).2[1]? = some w ∧ v.gen = w.gen ∧
+    ∀ id ∈ v.ids, id ∉ w.ids := by
+  refine ⟨_, _, rfl, rfl, ?_, ?_⟩
+  · decide
+  · exact ids_unique {} demoHist 0 1 _ _ rfl rfl (by decide) (by decide)
+/-- indices ARE reused across generations (so the generation hypothesis of `ids_unique` is needed) -/
+example : ((runH {} demoHist).2.map (·.ids))[0]? = some [0, 1] ∧
+    ((runH {} demoHist).2.map (·.ids))[2]? = some [0, 1, 2] := by decide
+/-- a symmetric create succeeds and a zero-size create fails -/
+example : (create {} [3, 3] none true).map (·.2.ids) = some [0, 1, 2, 1, 3, 4, 2, 4, 5] := by decide
+example : create {} [3, 0] none false = none := by decide
+example : symId 3 1 2 = 4 ∧ symId 3 2 1 = 4 := by decide
+
+/-- a concrete pickled graph: a slice listed before its proper parent -/
+def demoVar : VarObj := ⟨"x", [2], [0, 1], 0, true⟩
+def demoGraph : List VarObj := [slice demoVar [0] [1], demoVar]
+
+example : relink demoGraph [1, 0] = [(1, 1), (0, 1)] := by decide
+example : relink demoGraph [0, 1] = [(1, 1), (0, 1)] := by decide
+example : parentOf (relink demoGraph [1, 0]) 0 = some 1 ∧ parentOf (relink demoGraph [0, 1]) 0 = some 1 := by
+  decide
+/-- the hypotheses of `relink_proper_wins` are satisfiable on this graph, for both orders -/
+example : parentOf (relink demoGraph [0, 1]) 0 = some 1 :=
+  relink_proper_wins demoGraph [0, 1] (by decide) 1 demoVar rfl rfl 0 (by decide) (by
+    intro q o' hq hpr _
+    match q, hq with
+    | 0, hq => simp [demoGraph, slice] at hq; subst hq; simp at hpr
+    | 1, _ => rfl
+    | q + 2, hq => simp [demoGraph] at hq)
+example : parentOf (relink demoGraph [1, 0]) 0 = some 1 :=
+  relink_proper_wins demoGraph [1, 0] (by decide) 1 demoVar rfl rfl 0 (by decide) (by
+    intro q o' hq hpr _
+    match q, hq with
+    | 0, hq => simp [demoGraph, slice] at hq; subst hq; simp at hpr
+    | 1, _ => rfl
+    | q + 2, hq => simp [demoGraph] at hq)
+example : (slice demoVar [0] [1]).ids = [0] ∧ (slice demoVar [0] [1]).proper = false := by decide
 
 end Sageopt.Props.C20
